@@ -552,3 +552,28 @@ impl Campaign for C15c {
         v
     }
 }
+
+
+/// JSON dump of the corpus (bytes, programs, half-close) together with what the simulated
+/// server did for the unsplit delivery: used by the real-socket cross-check of the transport stub.
+pub fn dump_corpus() -> serde_json::Value {
+    let mut out = vec![];
+    for (ci, cv) in corpus().iter().enumerate() {
+        let b = baseline(ci);
+        out.push(serde_json::json!({
+            "index": ci,
+            "name": cv.name,
+            "bytes": B(cv.msgs.concat()),
+            "half_close": cv.half_close,
+            "programs": cv.programs,
+            "sim": {
+                "delivered": b.delivered.iter().map(|d| serde_json::json!({
+                    "id": d.0, "method": d.1.method, "url": d.1.url, "version": [d.1.version.0, d.1.version.1],
+                    "headers": d.1.headers, "body_length": d.1.body_length, "body": d.2.as_ref().map(|x| B(x.clone()))})).collect::<Vec<_>>(),
+                "wire": B(b.wire.clone()),
+                "fin": b.fin,
+            }
+        }));
+    }
+    serde_json::Value::Array(out)
+}
